@@ -20,6 +20,7 @@ import (
 type RtpUnpackerAvcHevc struct {
 	payloadType base.AvPacketPt
 	clockRate   int
+	clock       rtpClock
 	onAvPacket  OnAvPacket
 }
 
@@ -27,6 +28,7 @@ func NewRtpUnpackerAvcHevc(payloadType base.AvPacketPt, clockRate int, onAvPacke
 	return &RtpUnpackerAvcHevc{
 		payloadType: payloadType,
 		clockRate:   clockRate,
+		clock:       rtpClock{clockRate: clockRate},
 		onAvPacket:  onAvPacket,
 	}
 }
@@ -50,7 +52,7 @@ func (unpacker *RtpUnpackerAvcHevc) TryUnpackOne(list *RtpPacketList) (unpackedF
 	case PositionTypeSingle:
 		var pkt base.AvPacket
 		pkt.PayloadType = unpacker.payloadType
-		pkt.Timestamp = rtpTimestamp2Ms(first.Packet.Header.Timestamp, unpacker.clockRate)
+		pkt.Timestamp = unpacker.clock.ms(first.Packet.Header.Timestamp)
 
 		pkt.Payload = make([]byte, len(first.Packet.Body())+4)
 		bele.BePutUint32(pkt.Payload, uint32(len(first.Packet.Body())))
@@ -71,7 +73,7 @@ func (unpacker *RtpUnpackerAvcHevc) TryUnpackOne(list *RtpPacketList) (unpackedF
 
 		var pkt base.AvPacket
 		pkt.PayloadType = unpacker.payloadType
-		pkt.Timestamp = rtpTimestamp2Ms(first.Packet.Header.Timestamp, unpacker.clockRate)
+		pkt.Timestamp = unpacker.clock.ms(first.Packet.Header.Timestamp)
 
 		// 跳过前面的字节，并且将多nalu前的2字节长度，替换成4字节长度
 		// skip后：
@@ -125,7 +127,7 @@ func (unpacker *RtpUnpackerAvcHevc) TryUnpackOne(list *RtpPacketList) (unpackedF
 			} else if p.Packet.positionType == PositionTypeFuaEnd {
 				var pkt base.AvPacket
 				pkt.PayloadType = unpacker.payloadType
-				pkt.Timestamp = rtpTimestamp2Ms(p.Packet.Header.Timestamp, unpacker.clockRate)
+				pkt.Timestamp = unpacker.clock.ms(p.Packet.Header.Timestamp)
 
 				var naluTypeLen int
 				var naluType []byte
